@@ -267,6 +267,11 @@ def run_tierb(ctx, spec):
         for x in excs:
             c = cases.get(x.get('seq'))
             ctx.violation('tierb-extract-exception', 'under real gdb: %s (signature %r)' % (x.get('exc'), c and c['sig']), {'closure': c, 'tier': 'B'})
+        exited = [x for x in r['records'] if x['t'] == 'exited']
+        inferior_ok = bool(exited) and exited[0].get('code') in (0, None)
+        if not inferior_ok:
+            ctx.inconc('tier B: the synthetic inferior did not run its script to the end (exit %r) - a harness problem, not a verdict: %s' % (
+                exited and exited[0].get('code'), r['stdout'][-200:] + r['stderr'][-200:]))
         halts = [x for x in r['records'] if x['t'] == 'halt']
         if halts:
             ctx.violation('tierb-unexpected-halt', 'real gdb halted at events %r without a breakpoint matcher (an exception in stop()?) stderr: %s' % (
@@ -276,7 +281,7 @@ def run_tierb(ctx, spec):
             b = got.get(seq)
             case = {'closure': c, 'tier': 'B'}
             if b is None:
-                if not excs:
+                if not excs and inferior_ok:
                     ctx.violation('tierb-missing', 'event %d (signature %r) was not reported under real gdb' % (seq, c['sig']), case)
                 continue
             world.mem.reset(); world.ifaces.clear(); world.strings.clear()
